@@ -412,6 +412,24 @@ def detachAll {π} (mols : List Mol) (pos : PosTable π) : List Mol × PosTable 
   let mols' := mols.map fun m => { m with nodes := m.nodes.filter (·.ligated.isNone) }
   (mols', pos'.filter (fun e => e.1 ∉ lig.map (·.1)))
 
+/-- specification of the ligand round trip, evaluated on observed states: `orig` before attaching,
+`attached` after attaching (positions `pos` generated for every node, attached ones included), `final` /
+`posAfter` after detaching.  (1) the molecule list is unchanged, (2) every ligand residue that had a node
+attached holds the position generated for (one of) its attached node(s), (3) every other residue keeps the
+position generated for itself. -/
+def ligStructureSame (orig final : List Mol) : Bool := decide (orig = final)
+
+def ligPositionsHanded {π} [DecidableEq π] (attached : List Mol) (pos posAfter : PosTable π) : Bool :=
+  (ligatedNodes attached).all fun st =>
+    (ligatedNodes attached).any fun st' => decide (st'.2 = st.2) && decide (lookup posAfter st.2 = lookup pos st'.1)
+      && (lookup pos st'.1).isSome
+
+def ligOthersKept {π} [DecidableEq π] (attached : List Mol) (pos posAfter : PosTable π) : Bool :=
+  posAfter.all fun e => decide (e.1 ∈ (ligatedNodes attached).map (·.2)) || decide (lookup pos e.1 = some e.2)
+
+def ligRoundTripB {π} [DecidableEq π] (orig attached final : List Mol) (pos posAfter : PosTable π) : Bool :=
+  ligStructureSame orig final && ligPositionsHanded attached pos posAfter && ligOthersKept attached pos posAfter
+
 /-! ### E. `-split` -/
 
 structure Atom where
